@@ -93,3 +93,42 @@ Example ex_names :
   option_map (fun g => item_names (iterate true g)) (build ctx0 ex_big)
   = Some ["a"; "b"; "c"; "x"; "y"; "a"; "b"; "f"; "c"; "p"; "q"].
 Proof. reflexivity. Qed.
+
+(* ---------- dotted chains keep the parent links that name resolution follows ---------- *)
+Fixpoint chain_expr (root : pyexpr) (attrs : list string) : pyexpr :=
+  match attrs with [] => root | x :: r => chain_expr (PAttribute root x) r end.
+
+(* the names after the root: each one's parent is the name before it, whose dotted path is [path] *)
+Fixpoint chain_names (path : string) (attrs : list string) : list gexpr :=
+  match attrs with
+  | [] => []
+  | x :: r => GName x (ParName path) :: chain_names (path ++ "." ++ x) r
+  end.
+
+Lemma chain_step (cx : bctx) (e : pyexpr) (vs : list gexpr) (path : string) (attrs : list string) :
+  build cx e = Some (GAttribute vs) -> gname_path (last vs (GStr "")) = path ->
+  build cx (chain_expr e attrs) = Some (GAttribute (vs ++ chain_names path attrs)).
+Proof.
+  revert e vs path. induction attrs as [|x r IH]; intros e vs path Hb Hp.
+  - simpl. rewrite app_nil_r. exact Hb.
+  - cbn [chain_expr chain_names].
+    rewrite (IH (PAttribute e x) (vs ++ [GName x (ParName path)]) (path ++ "." ++ x)%string).
+    + rewrite <- app_assoc. reflexivity.
+    + cbn [build mapped node_builder]. rewrite Hb. cbn [attach_attr]. rewrite Hp. reflexivity.
+    + rewrite last_last. reflexivity.
+Qed.
+
+Theorem dotted_chain_parent_links (cx : bctx) (r x : string) (attrs : list string) :
+  build cx (chain_expr (PName r) (x :: attrs)) = Some (GAttribute (GName r ParScope :: chain_names r (x :: attrs))).
+Proof.
+  cbn [chain_expr chain_names].
+  rewrite (chain_step cx (PAttribute (PName r) x) [GName r ParScope; GName x (ParName r)] (r ++ "." ++ x)%string attrs).
+  - reflexivity.
+  - reflexivity.
+  - reflexivity.
+Qed.
+
+Example dotted_example :
+  option_map (fun g => map gname_path (match g with GAttribute vs => vs | _ => [] end)) (build ctx0 (chain_expr (PName "a") ["b"; "c"]))
+  = Some ["a"; "a.b"; "a.b.c"].
+Proof. reflexivity. Qed.
